@@ -158,3 +158,13 @@ def run(ctx: Ctx, rep: Report, tier: str):
     c.r1_r2()
     c.r3()
     c.r4()
+    from rules.C12 import C12
+    rep.rule("C03.R5", "path translation between the roots decides membership with the SOURCE side's path rules and joins with the destination's, falling "
+             "through to None (C12.Y2): otherwise one-sided changes under a differently spelled root are dropped as irrelevant", 3)
+    rep.rules["C12.Y2"] = "alias"
+    C12(ctx, rep).y2()
+    for i in rep.instances:
+        if i.rule == "C12.Y2":
+            i.rule = "C03.R5"
+    rep.rules.pop("C12.Y2", None)
+    rep.expect.pop("C12.Y2", None)
